@@ -117,6 +117,9 @@ func runDB(c *DBCase) ([]byte, error) {
 // (map iteration in ResponseOptimizerPlanner), so streams are matched by label set; for the metric pipeline only
 // "one object per series that has rows, with its labels" is demanded (the values are C08's business).
 func checkDB(c *DBCase, body []byte) *Bad {
+	if b := rawUTF8("db_"+c.Kind, body); b != nil {
+		return b
+	}
 	doc, err := parseOne(body)
 	if err != nil {
 		return bad("db_"+c.Kind+fp0Tag(c)+"_not_json", "body is not one JSON value (%v): %s", err, snippet(body))
